@@ -20,6 +20,8 @@ LEVEL_TEXT = ('static: shape table vs reference and docstring, encoder append or
               'exhaustiveness, constructor breakpoints after AST normalisation, None-default discipline. Interpolation '
               'values between breakpoints are not decided.')
 LEVEL_NOTE = 'reference shapes/breakpoints from the server (SC_Env / EnvGen help) kept in the rule module'
+LEVEL_TEXT_ADD = ' Also: formats are not memoized, constructors tolerate list parameters and copy their point lists.'
+LEVEL_TEXT = (globals().get('LEVEL_TEXT') or EXPLANATION) + LEVEL_TEXT_ADD
 TECHNIQUE = 'static analysis: table agreement + append-order extraction + AST normal-form comparison of constructor breakpoints'
 
 SHAPES = {'step': 0, 'lin': 1, 'linear': 1, 'exp': 2, 'exponential': 2, 'sin': 3, 'sine': 3, 'wel': 4, 'welch': 4,
